@@ -1,12 +1,46 @@
 use vcore::drive::{install_panic_hook, parse_cli};
 use vcore::Ctx;
 
+mod c01;
+mod c02;
+mod c03;
+mod c04;
+mod c05;
+mod c06;
+mod c07;
+mod c08;
+mod c09;
+mod c10;
+mod c11;
+mod c12;
+mod c13;
+mod c14;
 mod c15;
+mod c16;
+mod c17;
+mod c18;
+mod c19;
+mod c20;
+mod c21;
+mod c22;
+mod c23;
+mod c24;
+mod c25;
+mod c26;
+mod c27;
+mod c28;
+mod c29;
+mod c30;
+mod c31;
+mod c32;
+mod c33;
+mod c34;
+mod children;
 
 fn main() {
     let args: Vec<String> = std::env::args().collect();
     if args.len() >= 3 && args[1] == "--child" {
-        std::process::exit(child_main(&args[2], &args[3..]));
+        std::process::exit(children::child_main(&args[2], &args[3..]));
     }
     install_panic_hook();
     let (id, tier, replay) = parse_cli();
@@ -23,20 +57,44 @@ fn main() {
         }
     }
     match id.as_str() {
+        "C01" => c01::run(&mut ctx),
+        "C02" => c02::run(&mut ctx),
+        "C03" => c03::run(&mut ctx),
+        "C04" => c04::run(&mut ctx),
+        "C05" => c05::run(&mut ctx),
+        "C06" => c06::run(&mut ctx),
+        "C07" => c07::run(&mut ctx),
+        "C08" => c08::run(&mut ctx),
+        "C09" => c09::run(&mut ctx),
+        "C10" => c10::run(&mut ctx),
+        "C11" => c11::run(&mut ctx),
+        "C12" => c12::run(&mut ctx),
+        "C13" => c13::run(&mut ctx),
+        "C14" => c14::run(&mut ctx),
         "C15" => c15::run(&mut ctx),
+        "C16" => c16::run(&mut ctx),
+        "C17" => c17::run(&mut ctx),
+        "C18" => c18::run(&mut ctx),
+        "C19" => c19::run(&mut ctx),
+        "C20" => c20::run(&mut ctx),
+        "C21" => c21::run(&mut ctx),
+        "C22" => c22::run(&mut ctx),
+        "C23" => c23::run(&mut ctx),
+        "C24" => c24::run(&mut ctx),
+        "C25" => c25::run(&mut ctx),
+        "C26" => c26::run(&mut ctx),
+        "C27" => c27::run(&mut ctx),
+        "C28" => c28::run(&mut ctx),
+        "C29" => c29::run(&mut ctx),
+        "C30" => c30::run(&mut ctx),
+        "C31" => c31::run(&mut ctx),
+        "C32" => c32::run(&mut ctx),
+        "C33" => c33::run(&mut ctx),
+        "C34" => c34::run(&mut ctx),
         _ => {
             eprintln!("unknown property {}", id);
             std::process::exit(2);
         }
     }
     ctx.finish();
-}
-
-fn child_main(mode: &str, _args: &[String]) -> i32 {
-    match mode {
-        _ => {
-            eprintln!("unknown child mode {}", mode);
-            2
-        }
-    }
 }
